@@ -431,6 +431,11 @@ func gen(out string) error {
 		names = append(names, fmt.Sprintf("(%s, %d, sch_%s)", vh.Str(e.key()), e.Type, coqName(e)))
 	}
 	sb.WriteString("Definition msg_table : list (string * N * schema) :=\n  [" + strings.Join(names, ";\n   ") + "].\n")
+	lc, err := limitsCoq()
+	if err != nil {
+		return err
+	}
+	sb.WriteString(lc)
 	if out == "" {
 		fmt.Print(sb.String())
 		return nil
